@@ -23,6 +23,7 @@ RULE = ("passwords from a generator biased to blanks (inside, leading), non-ASCI
         "that differ only in the password (same length) produce identical log streams.  distinct = distinct (password class, "
         "scenario) pairs; non-trivial = the password contains a non-alphanumeric character or is shorter than 3.")
 RULE += ("  " + "Also: passwords with blanks at the ends and with latin-1 letters; connection limits reached; back-end failure, unknown verb, undecodable bytes after login; reset right after PASS; user managers whose authenticate times out or fails; shutdown with a password session connected; the client's socket_timeout expiring inside PASS; a PASS line in a foreign encoding; tracebacks of records are searched too.")
+RULE += ("  " + 'Also (round 6): aioftp client whose server hangs up without a reply to PASS (user manager raises; scripted server closing silently, inside a reply line, or after bytes that are no reply).')
 RULE += ("  " + 'Also: the whole login and further commands in one burst with a suspending user manager; the connection ending inside the PASS line.')
 ASSUMPTIONS = ["passwords with CR/LF are not carriable by the line protocol and are excluded; blanks at the ends are sent (the server "
                "strips them, so such logins are rejected) and searched for without them",
@@ -37,7 +38,7 @@ SPECIALS = [" ", "  ", "%s", "%d", "%(x)s", "{}", "{0}", "\\", "\\n", "\"", "'",
 SCENARIOS = ["client_ok", "client_bad", "raw_PASS_ok", "raw_pass_ok", "raw_PaSs_bad", "raw_out_of_sequence", "raw_relogin",
              "raw_user_limit", "raw_server_limit", "raw_errors_after_login", "raw_cut_in_pass", "client_ok_ops", "raw_slow_manager",
              "raw_failing_manager", "raw_close_while_logged_in", "client_timeout_in_pass", "raw_latin1_pass", "raw_pipelined_pass",
-             "raw_pass_no_newline"]
+             "raw_pass_no_newline", "client_failing_manager", "client_hangup_after_pass"]
 
 
 def gen_password(rng):
@@ -78,7 +79,7 @@ async def scenario(net, hyg, name, password):
     stored = password if not name.endswith("_bad") else password + "X"
     users = [aioftp.User("alice", stored, base_path="/", **({"maximum_connections": 1} if name == "raw_user_limit" else {})),
              aioftp.User("bob", None, base_path="/")]
-    if name in ("raw_slow_manager", "raw_failing_manager", "client_timeout_in_pass", "raw_pipelined_pass"):
+    if name in ("raw_slow_manager", "raw_failing_manager", "client_timeout_in_pass", "raw_pipelined_pass", "client_failing_manager"):
         # a user manager of the documented kind: get_user/authenticate decorated with with_timeout, timeout from the base class
         class Manager(aioftp.MemoryUserManager):
             @aioftp.with_timeout
@@ -87,7 +88,7 @@ async def scenario(net, hyg, name, password):
                     await asyncio.sleep(1.0)
                 elif name == "raw_pipelined_pass":
                     await asyncio.sleep(0.05)
-                elif name == "raw_failing_manager":
+                elif name in ("raw_failing_manager", "client_failing_manager"):
                     raise RuntimeError("directory service unreachable")
                 return await super().authenticate(user, password)
         users = Manager(users, timeout=0.2 if name not in ("client_timeout_in_pass", "raw_pipelined_pass") else 5)
@@ -143,6 +144,41 @@ async def scenario(net, hyg, name, password):
             r = await p.read_reply(wait=2)
             outcome.append(r.code if r not in (None, "EOF") else str(r))
             p.cut("fin")
+        elif name == "client_failing_manager":
+            # the server drops the session without any reply to PASS (its user manager raised); the client sees the hang-up
+            c = aioftp.Client(path_io_factory=aioftp.MemoryPathIO)
+            await c.connect("127.0.0.1", 2121)
+            try:
+                await c.login("alice", password)
+                outcome.append("ok")
+            except (asyncio.TimeoutError, aioftp.StatusCodeError, ConnectionError) as e:
+                outcome.append(type(e).__name__)
+            c.close()
+        elif name == "client_hangup_after_pass":
+            # a scripted server that ends the session right after PASS: silently, inside a reply line, or with bytes that
+            # are no reply at all
+            how = len(password) % 3
+
+            async def handle(reader, writer):
+                writer.write(b"220 hi\r\n")
+                await reader.readline()
+                writer.write(b"331 password\r\n")
+                await reader.readline()
+                if how == 1:
+                    writer.write(b"5")
+                elif how == 2:
+                    writer.write(b"\xff\xfe not a reply\r\n")
+                writer.close()
+            srv = await asyncio.start_server(handle, "127.0.0.1", 2122)
+            c = aioftp.Client(path_io_factory=aioftp.MemoryPathIO)
+            await c.connect("127.0.0.1", 2122)
+            try:
+                await c.login("alice", password)
+                outcome.append("ok")
+            except Exception as e:
+                outcome.append(type(e).__name__)
+            c.close()
+            srv.close()
         elif name == "client_timeout_in_pass":
             # the client's own socket_timeout expires while it waits for the answer to PASS
             c = aioftp.Client(path_io_factory=aioftp.MemoryPathIO, socket_timeout=0.3)
